@@ -1,0 +1,64 @@
+//go:build verif
+
+// Read-only accessors for the /verif C04 correspondence harness.  Add-only file;
+// compiled only with -tags verif.
+
+package labelindex
+
+import (
+	"github.com/projectcalico/calico/felix/ip"
+	"github.com/projectcalico/calico/felix/labelindex/ipsetmember"
+)
+
+// VerifC04RefCounts returns a copy of every IP set's memberToRefCount map.
+func (idx *SelectorAndNamedPortIndex) VerifC04RefCounts() map[string]map[ipsetmember.IPSetMember]uint64 {
+	out := map[string]map[ipsetmember.IPSetMember]uint64{}
+	for id, d := range idx.ipSetDataByID {
+		m := map[ipsetmember.IPSetMember]uint64{}
+		for k, v := range d.memberToRefCount {
+			m[k] = v
+		}
+		out[id] = m
+	}
+	return out
+}
+
+// VerifC04CachedIDs returns, per endpoint/network-set ID, the cached matching IP set IDs.
+func (idx *SelectorAndNamedPortIndex) VerifC04CachedIDs(ids []any) map[any][]string {
+	out := map[any][]string{}
+	for _, id := range ids {
+		ep, ok := idx.endpointKVIdx.Get(id)
+		if !ok {
+			continue
+		}
+		var l []string
+		for s := range ep.cachedMatchingIPSetIDs.All() {
+			l = append(l, s)
+		}
+		out[id] = l
+	}
+	return out
+}
+
+// VerifC04NumEndpoints returns the number of endpoints/network sets stored.
+func (idx *SelectorAndNamedPortIndex) VerifC04NumEndpoints() int {
+	return idx.endpointKVIdx.Len()
+}
+
+// VerifC04SuppressorCIDRs returns the CIDRs stored in the overlap suppressor's tries, per IP set
+// (nil for the no-op suppressor).
+func (idx *SelectorAndNamedPortIndex) VerifC04SuppressorCIDRs() map[string][]ip.CIDR {
+	d, ok := idx.suppressor.(*memberDeduplicator)
+	if !ok {
+		return nil
+	}
+	out := map[string][]ip.CIDR{}
+	for _, tries := range []map[string]*ip.CIDRTrie{d.v4tries, d.v6tries} {
+		for id, t := range tries {
+			for _, e := range t.ToSlice() {
+				out[id] = append(out[id], e.CIDR)
+			}
+		}
+	}
+	return out
+}
